@@ -2,7 +2,17 @@
  * connect, socket, close, poll, getsockopt, setsockopt, fcntl, the malloc family (with a
  * "fail the k-th library allocation" mode) and a scripted monoclock (util/monoclock.c is not
  * linked).  Every descriptor the library sees is a fake one; nothing here touches the real
- * kernel.  The wrappers also write the observation log (fk_log). */
+ * kernel.  The wrappers also write the observation log (fk_log).
+ *
+ * errno hygiene: poll and signal are allowed to leave any value in errno when they succeed, and the
+ * scripted ones do: each successful poll() / signal() leaves the next value of the rotation
+ * 0, EAGAIN, EBADF, EINTR, EPIPE behind.  The value on record when callback_buf of network_write.c
+ * is entered (and after each of its signal() calls in the -DPOSIXFAIL_MSG_NOSIGNAL configuration)
+ * is therefore different from the one the scripted send() sets, so code that classifies a failed
+ * send() on an errno that is not send()'s own behaves visibly differently.
+ * send() also records its flags argument and whether SIGPIPE is ignored while it runs
+ * (fk_send_stats: the driver prints them after "end"; areas/net.py decides what is right for the
+ * build configuration: MSG_NOSIGNAL present, or absent with SIGPIPE ignored around the call). */
 #include <sys/types.h>
 #include <sys/socket.h>
 #include <sys/time.h>
@@ -10,6 +20,7 @@
 #include <errno.h>
 #include <fcntl.h>
 #include <poll.h>
+#include <signal.h>
 #include <stdarg.h>
 #include <stdint.h>
 #include <stdio.h>
@@ -37,6 +48,43 @@ int fk_errcode(const char * name)	/* index into the tables, -1 if unknown */
 	for (i = 0; i < FK_NERR; i++)
 		if (strcmp(name, fk_errname[i]) == 0) return i;
 	return -1;
+}
+
+/* ------------------------------------------------------------------ errno left behind by successful calls */
+static unsigned fk_rot;
+static void fk_errno_rotate(void)
+{
+	static const int v[5] = { 0, EAGAIN, EBADF, EINTR, EPIPE };
+	errno = v[fk_rot++ % 5];
+}
+
+/* ------------------------------------------------------------------ SIGPIPE disposition (signal is wrapped) */
+typedef void (* fk_sighandler)(int);
+fk_sighandler __real_signal(int, fk_sighandler);
+fk_sighandler __real___sysv_signal(int, fk_sighandler);
+static int fk_sigpipe_ign;			/* SIGPIPE is currently ignored through signal() */
+static unsigned long fk_nsignal;		/* calls of signal(SIGPIPE, ..) */
+static fk_sighandler fk_sigpipe_first;		/* disposition found by the first of them */
+static fk_sighandler fk_sigpipe_now;		/* disposition set by the last of them */
+static fk_sighandler fk_signal_seen(int sig, fk_sighandler h, fk_sighandler old)
+{
+	if (sig == SIGPIPE && old != SIG_ERR) {
+		if (fk_nsignal++ == 0) fk_sigpipe_first = old;
+		fk_sigpipe_now = h;
+		fk_sigpipe_ign = (h == SIG_IGN);
+	}
+	if (old != SIG_ERR) fk_errno_rotate();
+	return old;
+}
+fk_sighandler __wrap_signal(int sig, fk_sighandler h) { return fk_signal_seen(sig, h, __real_signal(sig, h)); }
+/* what <signal.h> turns signal() into under _XOPEN_SOURCE without _DEFAULT_SOURCE (glibc) */
+fk_sighandler __wrap___sysv_signal(int sig, fk_sighandler h) { return fk_signal_seen(sig, h, __real___sysv_signal(sig, h)); }
+static unsigned long fk_nsend, fk_nsend_nosignal, fk_nsend_ign;
+/* sends, sends with MSG_NOSIGNAL, sends with SIGPIPE ignored, SIGPIPE disposition as found */
+void fk_send_stats(unsigned long * n, unsigned long * nosig, unsigned long * ign, int * restored)
+{
+	*n = fk_nsend; *nosig = fk_nsend_nosignal; *ign = fk_nsend_ign;
+	*restored = (fk_nsignal == 0 || fk_sigpipe_now == fk_sigpipe_first);
 }
 
 /* ------------------------------------------------------------------ log */
@@ -367,8 +415,10 @@ ssize_t __wrap_recv(int fd, void * buf, size_t len, int flags)
 ssize_t __wrap_send(int fd, const void * buf, size_t len, int flags)
 {
 	struct fk_q * q = fk_getq(fd, 1, 0); struct fk_ev * e; char wh[64]; size_t n; struct fk_wire * w = fk_getwire(fd);
-	(void)flags;
 	fk_activity++;
+	fk_nsend++;
+	if (flags & MSG_NOSIGNAL) fk_nsend_nosignal++;
+	if (fk_sigpipe_ign) fk_nsend_ign++;
 	fk_where(wh, buf);
 	if (q == NULL || q->head >= q->n) { fk_log("S%d:%s:%zu=EAGAIN", fd, wh, len); errno = EAGAIN; return -1; }
 	e = &q->ev[q->head++];
@@ -405,6 +455,7 @@ int __wrap_poll(struct pollfd * fds, nfds_t nfds, int timeout)
 		if (rd && (best < 0 || fds[i].fd < fds[best].fd || (fds[i].fd == fds[best].fd && bestwr))) { best = (long)i; bestwr = 0; }
 		else if (wr && (best < 0 || fds[i].fd < fds[best].fd)) { best = (long)i; bestwr = 1; }
 	}
+	fk_errno_rotate();
 	if (best < 0) return 0;
 	fds[best].revents = bestwr ? POLLOUT : POLLIN;
 	return 1;
